@@ -63,6 +63,9 @@ func (m *Model) Dump(opt dump.Options) *dump.Dump {
 				}
 			}
 		}
+		if opt.Versions && !opt.KeepOrder {
+			dump.CanonVersions(bd.Versions)
+		}
 		for _, u := range b.Uploads {
 			ud := dump.Upload{Key: u.Key, Class: effClass(u.Class), Parts: []dump.UploadPart{}}
 			var nums []int
